@@ -37,8 +37,8 @@ ASSUMPTIONS = [
     "conflicts are detected within one process history; the pair replay assumes the conflict does not need a third program",
 ]
 
-SHAPES = [(12,), (6, 4)]
-CHUNKS = {(12,): [[[12]], [[4, 4, 4]], [[5, 7]]], (6, 4): [[[6], [4]], [[3, 3], [2, 2]], [[2, 4], [4]]]}
+SHAPES = [(12,), (6, 4), (8, 6)]
+CHUNKS = {(12,): [[[12]], [[4, 4, 4]], [[5, 7]]], (6, 4): [[[6], [4]], [[3, 3], [2, 2]], [[2, 4], [4]]], (8, 6): [[[2, 2, 2, 2], [1, 1, 1, 1, 1, 1]]]}
 SLICES_1D = [(2, 8), (1, 3), (3, 5), (0, 6), (6, 12), (0, 12), (4, 8), (2, 4)]
 
 
@@ -52,6 +52,8 @@ def leaf_pool():
         for seed in (1, 2, 3):
             for ch in CHUNKS[shape][1:]:
                 pool.append({"shape": list(shape), "dtype": "f8", "chunks": ch, "offset": 0, "kind": "random", "seed": seed})
+        for k in (0, 1):
+            pool.append({"shape": list(shape), "dtype": "f8", "chunks": CHUNKS[shape][-1], "offset": 0, "kind": "random", "seed": 7, "spawn": k})
     return pool
 
 
@@ -63,6 +65,10 @@ def leaf_factory(leaf, data):
 
     ch = tuple(tuple(c) for c in leaf["chunks"])
     if leaf.get("kind") == "random":
+        if "spawn" in leaf:
+            # sibling streams the way NumPy recommends: children of one SeedSequence
+            child = np.random.SeedSequence(leaf["seed"]).spawn(2)[leaf["spawn"]]
+            return da.random.default_rng(child).random(tuple(leaf["shape"]), chunks=ch)
         return da.random.default_rng(leaf["seed"]).random(tuple(leaf["shape"]), chunks=ch)
     return da.from_array(data.copy(), chunks=ch)
 
@@ -80,7 +86,17 @@ def program_st(draw):
     for _ in range(D_.int(1, 4)):
         i = len(shapes) - 1 if D_.chance(2, 3) else D_.int(0, len(shapes) - 1)
         shp = shapes[i]
-        kind = D_.weighted([("slice", 6), ("rechunk", 5), ("add_s", 2), ("neg", 1), ("T", 1 if len(shp) == 2 else 0), ("sum", 1 if len(shp) >= 1 else 0), ("concat", 1), ("copy", 1), ("add", 1)])
+        kind = D_.weighted([("slice", 6), ("rechunk", 5), ("add_s", 2), ("neg", 1), ("T", 1 if len(shp) == 2 else 0), ("sum", 1 if len(shp) >= 1 else 0), ("concat", 1), ("copy", 1), ("add", 1), ("swvred", (8 if shp == (8, 6) else 3) if len(shp) == 2 and min(shp) >= 4 else 0)])
+        if kind == "swvred":
+            # the same input under windows along different axes / of different length: helper tasks of the
+            # native kernel must not be shared between them
+            ax = D_.int(0, 1)
+            w = D_.choice([w for w in (3, 4, 5, 6) if w <= shp[ax]])
+            stmts.append({"op": "sliding_window_view", "args": [i], "w": w, "axis": ax})
+            shapes.append(tuple(n - w + 1 if k == ax else n for k, n in enumerate(shp)) + (w,))
+            stmts.append({"op": D_.choice(["sum", "sum", "max"]), "args": [len(shapes) - 1], "axis": -1, "keepdims": False})
+            shapes.append(shapes[-1][:-1])
+            continue
         if kind == "slice" and shp and shp[0] >= 2:
             n = shp[0]
             cands = [(a, b) for a, b in SLICES_1D if b <= n and a < b]
